@@ -648,7 +648,7 @@ Theorem group_trace_inv selective stream cap0 ops : let w := group_run' selectiv
 Proof.
   intros w. unfold w, group_run'.
   apply (TW_run gst g_slots g_awaited g_member g_handle false false g_order g_pre_exit (fun _ => true) g_finish g_cleanup g_drop
-           (fun _ => false) g_Q G1 G8 G9 G10 G12 g_mutate Tg Ug Ug_cont Ug_stop Tg_order Ug_finish Tg_pre (fun s t _ => Tg_endp s t)
+           (fun _ => false) g_Q G1 G8 G9 G10 G12 g_mutate Tg Ug Ug_cont Ug_stop Tg_order Ug_finish Tg_pre (fun s t _ _ => Tg_endp s t)
            (fun (E: false = true) => match Bool.diff_false_true E with end) Tg_Q Ug_Q Tg_mut).
   intros _. apply Tg_init.
 Qed.
@@ -858,7 +858,7 @@ Proof.
   { unfold w, group_run'.
     apply (TW_run gst g_slots g_awaited g_member g_handle false false g_order g_pre_exit (fun _ => true) g_finish g_cleanup g_drop
              (fun _ => false) g_Q G1 G8 G9 G10 G12 g_mutate (Tn stream) (Un stream) (Un_cont stream) (Un_stop stream) (Tn_order stream)
-             (Un_finish stream) (Tn_pre stream) (Tn_endp stream)
+             (Un_finish stream) (Tn_pre stream) (fun s t E _ => Tn_endp stream s t E)
              (fun (E: false = true) => match Bool.diff_false_true E with end)
              (fun s t H => Tg_Q s t (proj1 H)) (fun s t H => Ug_Q s t (proj1 H)) (Tn_mut stream)); [|exact Hd].
     intros _. split; [apply Tg_init|split; reflexivity]. }
